@@ -39,14 +39,27 @@ TRAIL_PAD = ["", "", "", "\n", "  ", "\n\n", " \n"]
 def full_text(d):
     """The rendered description, as pasted text comes: possibly with white space / line breaks around it."""
     pad = d.get("pad") or ["", ""]
-    return pad[0] + G.render(d) + pad[1]
+    text = pad[0] + G.render(d) + pad[1]
+    if d.get("eol") == "crlf":
+        # the same text as a Windows editor saves it
+        text = text.replace("\r\n", "\n").replace("\n", "\r\n")
+    return text
+
+
+def eol_norm(d):
+    """With Windows line ends the library reads CR LF as line breaks; blocks are then compared up to how a line break is
+    written (a run of CR / LF = one line break), and never stripped: a stray CR at the end of a block is a difference."""
+    if d.get("eol") == "crlf":
+        return lambda pairs: [(a, re.sub(r"[\r\n]+", "\n", b)) for a, b in pairs]
+    return lambda pairs: list(pairs)
 
 
 def oracle(d):
     text = full_text(d)
-    exp = G.expected_tracts(d)
+    norm = eol_norm(d)
+    exp = norm(G.expected_tracts(d))
     desc = PLSSDesc(text)
-    got = [(t.trs, t.desc) for t in desc.tracts]
+    got = norm([(t.trs, t.desc) for t in desc.tracts])
     fails = []
     ctx = dict(text=text, layout=d["layout"], got=got, want=exp, deduced=desc.current_layout,
                e_flags=list(desc.e_flags))
@@ -63,7 +76,7 @@ def oracle(d):
         fails.append(Failure(f"e_flags:{d['layout']}", f"{text!r}: error flags {desc.e_flags}", **ctx))
     # being told the layout it was written in must give what deducing it gave
     for how, forced in (("init keyword", PLSSDesc(text, layout=d["layout"])), ("config", PLSSDesc(text, config=d["layout"]))):
-        gotf = [(t.trs, t.desc) for t in forced.tracts]
+        gotf = norm([(t.trs, t.desc) for t in forced.tracts])
         if gotf != exp or forced.e_flags:
             fails.append(Failure(f"forced_layout:{d['layout']}", f"{text!r}: layout {d['layout']} given by {how} yields {gotf} {forced.e_flags}, deduced parse yields {exp}", **ctx))
             break
@@ -71,7 +84,7 @@ def oracle(d):
     # round trip through the library's own pretty-printed rendering
     pretty = desc.pretty_desc(justify_linebreaks="")
     d2 = PLSSDesc(pretty)
-    got2 = [(t.trs, t.desc) for t in d2.tracts]
+    got2 = norm([(t.trs, t.desc) for t in d2.tracts])
     if got2 != exp:
         fails.append(Failure("pretty_roundtrip", f"pretty_desc {pretty!r} parses to {got2}, expected {exp}", pretty=pretty, **ctx))
     elif d2.e_flags or d2.current_layout != "TRS_desc":
@@ -98,6 +111,10 @@ def classes(d):
     out = {f"groups={len(d['groups'])}"}
     if (d.get("pad") or ["", ""])[0]:
         out.add("leading_whitespace")
+    if d.get("eol") == "crlf":
+        out.add("windows_line_ends")
+    if any(sx["conn"] != sx["conn"].lower() for g in d["groups"] for sx in g["secs"]) and d["layout"] in ("TR_desc_S", "desc_STR"):
+        out.add("capitalised_connector")
     if any(len(sx["lst"]["items"]) >= 17 for g in d["groups"] for sx in g["secs"]):
         out.add("long_section_list")
     for g in d["groups"]:
@@ -121,16 +138,17 @@ def case(layout):
     # end of the text follows it: the two layouts in which the section comes first after / before it
     spellings = tuple(G.TR_SPELLINGS_ALL) if layout in ("TRS_desc", "S_desc_TR") else None
     def build(t):
-        d, lead, trail, long_list = t
+        d, lead, trail, long_list, eol = t
         if long_list is not None:
             # one section group names a long list (a township of sections written out one by one)
             groups = [dict(g, secs=[dict(sx) for sx in g["secs"]]) for g in d["groups"]]
             groups[0]["secs"][0]["lst"] = long_list
             d = dict(d, groups=groups)
-        return dict(d, pad=[lead, trail])
+        return dict(d, pad=[lead, trail], eol=eol)
 
     long_lists = st.one_of(*([st.none()] * 11 + [L.long_rendered_list("sec", 99, (17, 20, 26))]))
-    return st.tuples(G.description(layout=layout, spellings=spellings), st.sampled_from(LEAD_PAD), st.sampled_from(TRAIL_PAD), long_lists).map(build)
+    return st.tuples(G.description(layout=layout, spellings=spellings), st.sampled_from(LEAD_PAD), st.sampled_from(TRAIL_PAD), long_lists,
+                     st.sampled_from(["lf"] * 5 + ["crlf"])).map(build)
 
 
 def mk(layout):
@@ -138,7 +156,7 @@ def mk(layout):
                nontrivial=nontrivial, classes=classes, render=render,
                n={"quick": 550, "thorough": 12000}, shards={"quick": 4, "thorough": 4},
                essential=("groups=2", "groups=3", "sec=range", "sec=list", "tr=words", "tr=abbr", "tr=dashed", "tr=lower",
-                          "multiline_block", "leading_whitespace", "long_section_list"))
+                          "multiline_block", "leading_whitespace", "long_section_list", "windows_line_ends"))
 
 
 SUBS = [mk(lay) for lay in G.LAYOUTS]
